@@ -20,10 +20,7 @@
      regular polygons NO two placed copies - any pair, any lattice translate - share an interior point. *)
 From Coq Require Import ZArith List Bool Reals Lra. Import ListNotations.
 From PV Require Import Num NumR model.Geom proofs.LatticeFacts proofs.SiteFacts proofs.OverlapFacts proofs.ConvexFacts proofs.ShapeFacts proofs.EnclosedFacts proofs.PackingFacts proofs.PolygonFacts proofs.RadiusFacts proofs.PolygonPacking proofs.NoNesting.
-From PV Require Import gen.GenFns proofs.SourceFacts.
-From PV Require Import proofs.SourceCorollaries.
-From PV Require Import model.Iter proofs.SearchFacts.
-From PV Require Import gen.GenFns proofs.SourceFacts proofs.SearchFacts.
+From PV Require Import gen.GenFns model.Iter model.Pipeline proofs.ListLemmas proofs.CorShells proofs.SrcShapes proofs.SrcState.
 
 Theorem C01_scored_disc_packing_has_no_overlap :
   forall (st : pstateR) (l : list discR), wf_state st -> rigid_inputs st -> p_shape NumR st =
@@ -261,10 +258,6 @@ Theorem C01_packed_score_is_source :
 Proof. exact packed_score_is_source. Qed.
 Print Assumptions C01_packed_score_is_source.
 
-Theorem C01_source_translated :
-  gen_fns_problem = String.EmptyString.
-Proof. exact source_translated. Qed.
-Print Assumptions C01_source_translated.
 
 
 Theorem C01_poly_radius_is_source :
@@ -338,4 +331,30 @@ Theorem S_total_shapes_is_source :
   forall (NN : Num) (st : pstate NN), Z.of_N (gen_total_shapes NN st) = total_shapes NN st.
 Proof. exact total_shapes_is_source. Qed.
 Print Assumptions S_total_shapes_is_source.
+
+
+Theorem C01_shapes_source_translated :
+  translated_gen_mol_trimer = true /\ translated_gen_lj_trimer = true /\
+    translated_gen_lj_energy = true /\ translated_gen_ljshape_energy = true /\
+    translated_gen_disc_intersects = true /\ translated_gen_seg_intersects = true /\
+    translated_gen_poly_intersects = true /\ translated_gen_mol_intersects = true /\
+    translated_gen_radial_dtheta = true /\ translated_gen_radial_edge = true /\
+    translated_gen_angle_term = true /\ translated_gen_poly_term = true /\
+    translated_gen_poly_radius_term = true /\ translated_gen_mol_radius_term = true /\
+    translated_gen_poly_radius = true /\ translated_gen_mol_radius = true /\
+    translated_gen_poly_area = true /\ translated_gen_overlap_area = true /\
+    translated_gen_circle_overlap = true /\ translated_gen_mol_area = true.
+Proof. exact shapes_source_translated. Qed.
+Print Assumptions C01_shapes_source_translated.
+
+Theorem C01_state_source_translated :
+  translated_gen_positions = true /\ translated_gen_total_shapes = true /\
+    translated_gen_relative_positions = true /\ translated_gen_cartesian_positions = true /\
+    translated_gen_lj_total_shapes = true /\ translated_gen_lj_relative_positions = true /\
+    translated_gen_lj_cartesian_positions = true /\ translated_gen_density_precheck = true /\
+    translated_gen_shells = true /\ translated_gen_radius_sq = true /\
+    translated_gen_check_intersection = true /\ translated_gen_packed_score = true /\
+    translated_gen_lj_score = true /\ translated_gen_lj_final = true.
+Proof. exact state_source_translated. Qed.
+Print Assumptions C01_state_source_translated.
 
